@@ -1724,7 +1724,9 @@ class Food(UnitConversions):
 
         # Define a rounding function
         def round_to_precision(value):
-            return round(value, rounding_decimals)
+            # float(): the elements of a monthly food are numpy scalars, whose round() breaks ties differently
+            # from the built-in float's (5e-10 rounds to 0.0 as numpy.float64 and to 1e-09 as float)
+            return round(float(value), rounding_decimals)
 
         # Check if the food is monthly
         if self.is_list_monthly():
